@@ -2025,7 +2025,21 @@ func calcDescriptorVBIDataLength(d *DescriptorVBIData) uint8 {
 	if d == nil {
 		return 0
 	}
-	return uint8(3 * len(d.Services))
+	ret := 0
+	for _, item := range d.Services {
+		ret += 2 // data service id and data service descriptor length
+		if item.DataServiceID == VBIDataServiceIDClosedCaptioning ||
+			item.DataServiceID == VBIDataServiceIDEBUTeletext ||
+			item.DataServiceID == VBIDataServiceIDInvertedTeletext ||
+			item.DataServiceID == VBIDataServiceIDMonochrome442Samples ||
+			item.DataServiceID == VBIDataServiceIDVPS ||
+			item.DataServiceID == VBIDataServiceIDWSS {
+			ret += len(item.Descriptors) // each descriptor is 1 byte
+		} else {
+			ret++ // reserved byte
+		}
+	}
+	return uint8(ret)
 }
 
 func writeDescriptorVBIData(w *astikit.BitsWriter, d *DescriptorVBIData) error {
